@@ -189,7 +189,9 @@ NextOf(P(_), PS(_)) ==
         \* balance would re-create the entry without Until/Parent (found by TLC, outside C09's quantifier)
   \/ \E S \in PS(SignerSets), t \in P(Acc), m \in P(Amounts) : Mint(S, t, m)
   \/ \E S \in PS(SignerSets), f \in P(Acc) : \E m \in P(Amounts \cup Hint(f)) : Burn(S, f, m)
-  \/ \E S \in PS(SignerSets), f \in P(Users), t \in P({l \in Locks \ used : ~acc[l].ex}) : \E m \in P(Amounts \cup Hint(f)), u \in P(Untils) :
+  \/ \E S \in PS(SignerSets), f \in P(Users \cup {l \in Locks : acc[l].ex /\ acc[l].parent # Nil}),
+                                t \in P({l \in Locks \ used : ~acc[l].ex}) :   \* `from` may itself be a lock account (nested locks)
+       \E m \in P(Amounts \cup Hint(f)), u \in P(Untils) :
         Lock(S, f, t, m, u)     \* lock targets are fresh addresses (quantifier of C01/C09); locking onto an
                                 \* existing account would overwrite its balance with 0
   \/ \E S \in PS(SignerSets), e \in P(Epochs) : NewEpoch(S, e)
@@ -263,18 +265,29 @@ C02_PublicTransfer(e) ==
 Expiring(lk, e) == {l \in Locks : lk[l].st = "locked" /\ e.x >= lk[l].until}
 IsTick(e) == e.act \in {"newEpoch", "newEpochNM"} /\ e.res = "HALT"
 
+\* Nested locks (a lock whose `from` is itself a lock account): the statement is per lock - "exactly the remaining
+\* balance returns to `from`", `from` being the outer lock account's ADDRESS - so what an outer account holds after a
+\* tick depends on the order in which the two are processed. Without nesting among the expiring locks the predicates
+\* are exact; with nesting only the order-independent part is demanded.
+Nested(lk, e) == \E l \in Expiring(lk, e) : lk[l].parent \in Locks
+Direct(lk, e, p) == SumOver(Bal(acc), {l \in Expiring(lk, e) : lk[l].parent = p})
 C09_NoEarly(lk, e) ==
-  IsTick(e) => \A l \in Locks : lk[l].st = "locked" /\ e.x < lk[l].until => acc'[l].bal = acc[l].bal
+  IsTick(e) => \A l \in Locks : lk[l].st = "locked" /\ e.x < lk[l].until =>
+     /\ acc'[l].ex /\ acc'[l].until = acc[l].until /\ acc'[l].parent = acc[l].parent      \* still the same lock
+     /\ IF Nested(lk, e) THEN acc'[l].bal >= acc[l].bal + Direct(lk, e, l)
+                         ELSE acc'[l].bal = acc[l].bal
 C09_AtExpiry(lk, e) ==
   IsTick(e) =>
-     /\ \A l \in Expiring(lk, e) : acc'[l].bal = 0
-     /\ \A p \in Users :
-          acc'[p].bal - acc[p].bal =
-             SumOver(Bal(acc), {l \in Expiring(lk, e) : lk[l].parent = p})
+     \* the lock account disappears (an address re-created by a later credit is an ordinary account, not a lock)
+     /\ \A l \in Expiring(lk, e) : ~acc'[l].ex \/ acc'[l].parent = Nil
+     /\ IF Nested(lk, e)
+        THEN \A p \in Users : acc'[p].bal - acc[p].bal >= Direct(lk, e, p)
+        ELSE /\ \A l \in Expiring(lk, e) : acc'[l].bal = 0
+             /\ \A p \in Users : acc'[p].bal - acc[p].bal = Direct(lk, e, p)
 \* nobody but the Alphabet (burn / transferX) or the expiry tick takes funds off a lock account
 C09_Stays(lk, e) ==
   \A l \in Locks : lk[l].st = "locked" /\ acc'[l].bal < acc[l].bal =>
-       \/ e.act \in {"burn", "transferX"} /\ e.res = "HALT" /\ e.a = l
+       \/ e.act \in {"burn", "transferX", "lock"} /\ e.res = "HALT" /\ e.a = l    \* Alphabet: burn, transferX, a nested lock
        \/ IsTick(e) /\ l \in Expiring(lk, e)
 C09_Once(lk, e) ==
   \A i \in 1..Len(e.ntf) : e.ntf[i].from \in Locks /\ e.act \in {"newEpoch", "newEpochNM"} => lk[e.ntf[i].from].st = "locked"
@@ -288,8 +301,8 @@ LkNext(lk, e) ==
      IF e.act = "lock" /\ e.res = "HALT" /\ e.b = l THEN [st |-> "locked", parent |-> e.a, until |-> e.x]
      ELSE IF IsTick(e) /\ l \in Expiring(lk, e) THEN [lk[l] EXCEPT !.st = "done"]
      \* burning everything that is left ends the lock ("until they are burnt")
-     ELSE IF e.act = "burn" /\ e.res = "HALT" /\ e.a = l /\ lk[l].st = "locked" /\ acc'[l].bal = 0
-          THEN [lk[l] EXCEPT !.st = "done"]
+     ELSE IF e.act \in {"burn", "lock", "transferX"} /\ e.res = "HALT" /\ e.a = l /\ lk[l].st = "locked" /\ acc'[l].bal = 0
+          THEN [lk[l] EXCEPT !.st = "done"]       \* (a nested lock or an Alphabet transfer of everything that is left does the same)
      ELSE lk[l]]
 
 =============================================================================
